@@ -463,12 +463,27 @@ def R2_authority_helpers(run):
                     sig_ok = True
         run.check("R2", "owner-key@" + path, key_ok, "%s does not fail when expected_owner != account key" % path, loc=fn.loc(), detail="expected != key => MissingOrInvalidDelegate")
         run.check("R2", "is-signer@" + path, sig_ok, "%s does not fail when the authority account is not a signer" % path, loc=fn.loc(), detail="!is_signer => MissingOrInvalidDelegate")
+    verified = ("util::shared::verify_position_authority", "util::shared::verify_position_authority_interface",
+                "pinocchio::ported::util_shared::pino_verify_position_authority")
     for path, owner_fn in (("util::shared::verify_position_authority", "util::shared::validate_owner"),
                            ("util::shared::verify_position_authority_interface", "util::shared::validate_owner"),
-                           ("pinocchio::ported::util_shared::pino_verify_position_authority", "pinocchio::ported::util_shared::pino_validate_owner")):
+                           ("pinocchio::ported::util_shared::pino_verify_position_authority", "pinocchio::ported::util_shared::pino_validate_owner"),
+                           ("util::shared::verify_position_bundle_authority", "util::shared::validate_owner")):
         fn = facts.need_fn(path)
         run.touch(fn)
         pv = prov_of(fn)
+        auth_param = (fn.param_names() + [None, None])[1]
+        if path not in verified:
+            # the bundle helper "uses the same logic": either it hands its own two parameters, in order, to a verified helper and
+            # returns that result, or it is held to the same rules itself
+            fw = [(bi, t) for bi, t in fn.calls() if callee_path(t) in verified and not fn.blocks[bi]["c"]]
+            if len(fw) == 1 and not [1 for bi, t in fn.calls() if callee_path(t) == owner_fn]:
+                bi, t = fw[0]
+                args = [strip(pv.operand(a, bi, len(fn.blocks[bi]["s"]))) for a in t["a"]]
+                ok = [a[0] == "param" and a[1] for a in args] == fn.param_names() and t["d"]["l"] == 0 and not t["d"].get("p")
+                run.check("R2", "forwards@" + path, ok, "%s does not hand (token account, authority) unchanged to %s and return its result" % (path, callee_path(t)),
+                          loc=fn.loc(t["l"]), detail="same logic as %s" % callee_path(t).rsplit("::", 1)[-1])
+                continue
         calls = [(bi, t) for bi, t in fn.calls() if callee_path(t) == owner_fn]
         n_owner = n_deleg = 0
         all_mp = True
@@ -482,7 +497,7 @@ def R2_authority_helpers(run):
                 deleg_blocks.append(bi)
             elif "owner" in s0:
                 n_owner += 1
-            if not mentions(a1, lambda s: s[0] == "param" and s[1].startswith("position_authority")):
+            if not mentions(a1, lambda s: s[0] == "param" and s[1] == auth_param):
                 all_mp = False
             info = cfg.result_ok_edge(fn, bi)
             if info is None:
@@ -518,7 +533,7 @@ def R2_authority_helpers(run):
         for at in A.atoms(fn):
             s = show(at.term)
             c = at.cond()
-            if c and c[0] in ("Eq", "Ne") and "delegate" in s and ("position_authority" in s) and "key" in s:
+            if c and c[0] in ("Eq", "Ne") and "delegate" in s and mentions(at.term, lambda x: x[0] == "param" and x[1] == auth_param) and "key" in s:
                 eq_target = at.true_targets[0] if c[0] == "Eq" else at.false_targets[0]
                 if deleg_blocks and all(eq_target == d or d in cfg.reach(fn, eq_target) for d in deleg_blocks):
                     ne_target = at.false_targets[0] if c[0] == "Eq" else at.true_targets[0]
